@@ -208,6 +208,20 @@ def main(argv=None):
         print("model driver failed: %s" % e)
         traceback.print_exc()
         return 2
+    except Exception as e:
+        # an exception that escapes from the implementation's own code while the check exercises it on inputs the
+        # property covers (printing a parsed tree, cloning, visiting ...) is a failure of the property, not of the
+        # harness: it is reported with the traceback as the replay. Anything raised by the harness itself is exit 2.
+        tb = traceback.extract_tb(e.__traceback__)
+        impl_root = common.snapshot_impl()
+        if tb and os.path.abspath(tb[-1].filename).startswith(impl_root):
+            where = "%s:%d in %s" % (os.path.relpath(tb[-1].filename, impl_root), tb[-1].lineno, tb[-1].name)
+            ctx.fail("the implementation raised %s (%s) at %s while the check exercised it" % (
+                type(e).__name__, str(e)[:200], where),
+                {"traceback": traceback.format_exception(type(e), e, e.__traceback__)[-12:]})
+            ctx.notes.append("the run was cut short by an exception from the implementation")
+        else:
+            raise
     if ctx.disagreements and not ctx.escalate and not ctx.failures:
         # correspondence broke: search harder with the oracle
         ctx2 = Ctx(prop, tier, seed + 1000003, True, ok_drv)
